@@ -478,14 +478,16 @@ def graph_matches(g, nodes, edges):
     return clauses
 
 
-def iso_clause(g1, g2, node_eq, edge_eq):
+def iso_clause(g1, g2, node_eq, edge_eq, concrete_label=None):
     """symbolic isomorphism: structure is concrete, attribute equalities may be terms.
-    Returns one condition: OR over structure-preserving bijections of AND of attribute equalities."""
+    Returns one condition: OR over structure-preserving bijections of AND of attribute equalities.
+    ``concrete_label(attrs)`` may give a concrete node label that has to agree (prunes the bijections)."""
     from networkx.algorithms.isomorphism import GraphMatcher
     if len(g1) != len(g2) or g1.number_of_edges() != g2.number_of_edges():
         return False
     alts = []
-    for mp in GraphMatcher(g1, g2).isomorphisms_iter():
+    nm = (lambda a, b: concrete_label(a) == concrete_label(b)) if concrete_label else None
+    for mp in GraphMatcher(g1, g2, node_match=nm).isomorphisms_iter():
         cs = [node_eq(g1.nodes[n], g2.nodes[mp[n]]) for n in g1.nodes]
         cs += [edge_eq(g1.edges[u, v], g2.edges[mp[u], mp[v]]) for u, v in g1.edges]
         c = band(*cs)
